@@ -28,3 +28,23 @@ def ob(id, ok, kind, detail="", witness=None, confirmed=None, domain=None, key=N
         d["domain"] = domain
     d["finding_key"] = key or id
     return d
+
+
+def register_probes(prop, probes, functions=("microjs.context:Context.eval",)):
+    """fixed probes of a property: (name, program or callable(Context class) -> value, ECMAScript result).  Obligation ids
+    <prop>.bounded.probe.<name>, finding keys <prop>.probe.<name> (known findings are matched by these keys)"""
+    def run(tier="quick", seed=0):
+        from microjs import Context
+        out = []
+        for name, src, exp in probes:
+            try:
+                got = src(Context) if callable(src) else Context(time_limit=10).eval(src)
+            except BaseException as e:  # noqa
+                got = f"!{type(e).__name__}: {e}"[:200]
+            ok = got == exp and type(got) is type(exp) or (isinstance(exp, (int, float)) and not isinstance(exp, bool) and isinstance(got, (int, float)) and not isinstance(got, bool) and got == exp)
+            text = src if isinstance(src, str) else (src.__doc__ or name)
+            out.append(ob(f"{prop}.bounded.probe.{name}", ok, "B", f"{text}  =>  {got!r}" + ("" if ok else f"  (ES: {exp!r})"),
+                          witness=None if ok else text, confirmed=None if ok else True, domain=1, key=f"{prop}.probe.{name}"))
+        return out
+    run.__name__ = f"{prop.lower()}_probes"
+    return group(id=f"{prop}.bounded.probes", prop=prop, kind="B", functions=list(functions))(run)
